@@ -22,7 +22,9 @@ ASSUMPTIONS = ['each mock-GPU thread runs atomically (finer interleavings are re
 @st.composite
 def cases(draw, tier):
     big = tier == 'thorough'
-    nl = draw(S.netlists(max_g=24 if big else 12, max_pi=5, max_st=2, need_d=True, clock_pins=True, families=XOR_RICH if draw(st.booleans()) else None))
+    large = draw(st.integers(0, 19)) == 0              # occasionally > 100 gates (hundreds of references to one memory slot)
+    nl = draw(S.netlists(max_g=(300 if big else 150) if large else (24 if big else 12), min_g=100 if large else 0, max_pi=5, max_st=2,
+                         need_d=True, clock_pins=True, families=XOR_RICH if draw(st.booleans()) else None))
     kind = draw(st.sampled_from(['wave', 'wave', 'cuda', 'logic2', 'logic4', 'logic8']))
     lanes = draw(st.integers(1, 3))
     shape = draw(st.integers(0, 9))
@@ -213,6 +215,7 @@ def prop(case):
     if maxops >= 3: labels.append('level_with>=3_ops')
     if reused: labels.append('memory_really_reused')
     if case['strip_forks']: labels.append('strip_forks')
+    if len(nl['g']) >= 100: labels.append('>=100_gates')
     return Obs(maxops >= 3 and reused, labels, checks=nperms + 1)
 
 
